@@ -766,7 +766,72 @@ def check_automaton(ctx, pid):
             if differs:
                 res.disagreements.append(dict(kind='machine/table', src=s, impl=short(x), model=short(y)))
     res.extra['result_kinds'] = hist
+    first_map_stage(ctx, pid, res)
     return res
+
+
+def parse_fm(line):
+    """Ok([F(xname,[xterm..],0|1)..]) -> {name: (set(terms), nullable)} or None."""
+    if not line.startswith('Ok('):
+        return None
+    t = oracles.parse_canon(line)
+    out = {}
+    for f in t[1][0]:
+        name, terms, eps = f[1]
+        out[oracles.cstr(name)] = ([oracles.cstr(x) for x in terms], int(eps) == 1)
+    return out
+
+
+def first_map_stage(ctx, pid, res):
+    """The FIRST map, on its own: hook `first_sets` of the crate vs get_first_sets of the model (a tie at an intermediate
+    result: a wrong entry is seen even when the LALR construction happens not to consult it) and vs FIRST by its defining
+    rules.  A wrong FIRST entry is not yet a violation of a property about the automaton: the grammar is then put into
+    contexts in which the entry IS consulted, and the automaton of each is compared with the reference."""
+    n = ctx.n(6000, 60000)
+    gs = [gen.gen_first_stress(ctx.rng) for _ in range(n)]
+    srcs = [gen.render(ctx.rng, g, 'plain') for g in gs]
+    r = vlib.run_rust('fm', hex_lines(srcs))
+    m = vlib.run_model('fm', [vlib.cps(s) for s in srcs]) if ctx.model_ok else [None] * n
+    wrong, probes = 0, 0
+    for g, s, x, y in zip(gs, srcs, r, m):
+        res.evaluations += 1
+        got = parse_fm(x)
+        if got is None:
+            if y is not None and x != y:
+                res.disagreements.append(disagreement('first-map', s, x, y))
+            continue
+        first, nullable = gen.first_reference(g)
+        bad = [a for a in first if a not in got or set(got[a][0]) != first[a] or got[a][1] != nullable[a]
+               or got[a][0] != sorted(got[a][0], key=lambda u: u.encode('utf-8'))]
+        if y is not None and x != y and not bad:
+            res.disagreements.append(disagreement('first-map', s, x, y))
+        if not bad:
+            continue
+        wrong += 1
+        found = False
+        for a in bad:
+            for h in [g] + gen.first_probe_variants(g, a):
+                hs = gen.render(ctx.rng, h, 'plain')
+                probes += 1
+                hx = vlib.run_rust('mt', hex_lines([hs]))[0]
+                hg = vlib.run_rust('gen', hex_lines([hs]))[0]
+                parsed = oracles.parse_mt(hx)
+                ref = oracles.lalr_reference(parsed['file']) if parsed else None
+                if parsed is None or ref is None:
+                    continue
+                fail = oracles.compare_with_reference(pid, parsed, ref, hg)
+                if fail is not None:
+                    res.failures.append(dict(kind=fail[0], src=hs, impl=fail[1], expected=fail[2], label='first-map probe'))
+                    found = True
+                    break
+            if found:
+                break
+        if not found:
+            res.disagreements.append(dict(kind='first-map-is-not-FIRST', src=s, impl=short(x, 400),
+                                          model=short(y or '', 400), expected=short(repr((first, nullable)), 400)))
+    res.extra['first_maps_compared'] = n
+    res.extra['first_maps_wrong'] = wrong
+    res.extra['first_map_probes'] = probes
 
 
 def check_C04(ctx):
